@@ -15,7 +15,7 @@ EAdd(a, b) == <<a[1] + b[1], a[2] + b[2], a[3] + b[3]>>
 ENeg(a) == <<-a[1], -a[2], -a[3]>>
 
 SPGet(f, e) == IF e \in DOMAIN f THEN f[e] ELSE CZero
-SPNorm(f) == [e \in {x \in DOMAIN f : ~CIsZero(f[x])} |-> f[e]]
+SPNorm(f) == TLCEval([e \in {x \in DOMAIN f : ~CIsZero(f[x])} |-> f[e]])
 SPZero == SPNorm([e \in {E0} |-> CZero])
 SPConst(c) == SPNorm([e \in {E0} |-> c])
 SPMono(e, c) == SPNorm([x \in {e} |-> c])
@@ -29,7 +29,7 @@ SPConv(f, g, e, S) ==        \* sum over a in S of f[a] * g[e - a]
   ELSE LET a == CHOOSE x \in S : TRUE IN CAdd(CMul(f[a], SPGet(g, EAdd(e, ENeg(a)))), SPConv(f, g, e, S \ {a}))
 SPMul(f, g) == SPNorm([e \in {EAdd(a, b) : a \in DOMAIN f, b \in DOMAIN g} |-> SPConv(f, g, e, DOMAIN f)])
 \* complex conjugate on the torus: conj(z^e) = z^-e
-SPConj(f) == [e \in {ENeg(x) : x \in DOMAIN f} |-> CConj(f[ENeg(e)])]
+SPConj(f) == TLCEval([e \in {ENeg(x) : x \in DOMAIN f} |-> CConj(f[ENeg(e)])])
 RECURSIVE SPSumOver(_, _)
 SPSumOver(f, S) == IF S = {} THEN CZero ELSE LET a == CHOOSE x \in S : TRUE IN CAdd(f[a], SPSumOver(f, S \ {a}))
 \* substitute monomials: exponent e becomes h(e)   (h linear, e.g. z1 -> z1*z2)
@@ -50,22 +50,20 @@ ISP == SPConst(CI)
 \* ---- matrices of polynomials -------------------------------------------------------------------
 RECURSIVE SPSumSeq(_)
 SPSumSeq(s) == IF s = <<>> THEN SPZero ELSE SPAdd(Head(s), SPSumSeq(Tail(s)))
-PMId(n) == [r \in 1..n |-> [c \in 1..n |-> IF r = c THEN SPOne ELSE SPZero]]
-PMConst(M) == [r \in 1..Len(M) |-> [c \in 1..Len(M[1]) |-> SPConst(M[r][c])]]
-PMMul(A, B) == [r \in 1..Len(A) |-> [c \in 1..Len(B[1]) |-> SPSumSeq([j \in 1..Len(B) |-> SPMul(A[r][j], B[j][c])])]]
-PMAdj(A) == [r \in 1..Len(A[1]) |-> [c \in 1..Len(A) |-> SPConj(A[c][r])]]
-PMScale(p, A) == [r \in 1..Len(A) |-> [c \in 1..Len(A[1]) |-> SPMul(p, A[r][c])]]
-PMAdd(A, B) == [r \in 1..Len(A) |-> [c \in 1..Len(A[1]) |-> SPAdd(A[r][c], B[r][c])]]
-PMSubst(A, h(_)) == [r \in 1..Len(A) |-> [c \in 1..Len(A[1]) |-> SPSubst(A[r][c], h)]]
-PMEvalW(A, k) == [r \in 1..Len(A) |-> [c \in 1..Len(A[1]) |-> SPEvalW(A[r][c], k)]]
-PMKron(A, B) == LET n == Len(B) m == Len(B[1]) IN
-   [r \in 1..(Len(A) * n) |-> [c \in 1..(Len(A[1]) * m) |->
-        SPMul(A[((r-1) \div n) + 1][((c-1) \div m) + 1], B[((r-1) % n) + 1][((c-1) % m) + 1])]]
-PMBlockId(d, A) == LET n == Len(A) IN
-   [r \in 1..(d + n) |-> [c \in 1..(d + n) |->
-        IF r <= d \/ c <= d THEN (IF r = c THEN SPOne ELSE SPZero) ELSE A[r - d][c - d]]]
-PMLift(G, qs, n) == [r \in 1..2^n |-> [c \in 1..2^n |->
-     IF AgreeOutside(r-1, c-1, qs, n) THEN G[SubIdx(r-1, qs, n) + 1][SubIdx(c-1, qs, n) + 1] ELSE SPZero]]
+PMId(n) ==  TLCEval([r \in 1..n |-> TLCEval([c \in 1..n |-> IF r = c THEN SPOne ELSE SPZero])])
+PMConst(M) ==  TLCEval([r \in 1..Len(M) |-> TLCEval([c \in 1..Len(M[1]) |-> SPConst(M[r][c])])])
+PMMul(A, B) ==  TLCEval([r \in 1..Len(A) |-> TLCEval([c \in 1..Len(B[1]) |-> SPSumSeq([j \in 1..Len(B) |-> SPMul(A[r][j], B[j][c])])])])
+PMAdj(A) ==  TLCEval([r \in 1..Len(A[1]) |-> TLCEval([c \in 1..Len(A) |-> SPConj(A[c][r])])])
+PMScale(p, A) ==  TLCEval([r \in 1..Len(A) |-> TLCEval([c \in 1..Len(A[1]) |-> SPMul(p, A[r][c])])])
+PMAdd(A, B) ==  TLCEval([r \in 1..Len(A) |-> TLCEval([c \in 1..Len(A[1]) |-> SPAdd(A[r][c], B[r][c])])])
+PMSubst(A, h(_)) ==  TLCEval([r \in 1..Len(A) |-> TLCEval([c \in 1..Len(A[1]) |-> SPSubst(A[r][c], h)])])
+PMEvalW(A, k) ==  TLCEval([r \in 1..Len(A) |-> TLCEval([c \in 1..Len(A[1]) |-> SPEvalW(A[r][c], k)])])
+PMKron(A, B) == LET n == Len(B) m == Len(B[1]) IN TLCEval([r \in 1..(Len(A) * n) |-> TLCEval([c \in 1..(Len(A[1]) * m) |->
+        SPMul(A[((r-1) \div n) + 1][((c-1) \div m) + 1], B[((r-1) % n) + 1][((c-1) % m) + 1])])])
+PMBlockId(d, A) == LET n == Len(A) IN TLCEval([r \in 1..(d + n) |-> TLCEval([c \in 1..(d + n) |->
+        IF r <= d \/ c <= d THEN (IF r = c THEN SPOne ELSE SPZero) ELSE A[r - d][c - d]])])
+PMLift(G, qs, n) ==  TLCEval([r \in 1..2^n |-> TLCEval([c \in 1..2^n |->
+     IF AgreeOutside(r-1, c-1, qs, n) THEN G[SubIdx(r-1, qs, n) + 1][SubIdx(c-1, qs, n) + 1] ELSE SPZero])])
 PMIsUnitary(A) == PMMul(A, PMAdj(A)) = PMId(Len(A))
 \* JSON-friendly form: every entry a sequence of [e, c]
 SPList(f) == LET RECURSIVE L(_)
